@@ -62,7 +62,12 @@ theorem C08_enabled (d : DictFn) (df : Bool) (S : Sys) (j : Nat) (cj cj' : CN) (
     statement inside the read loop (not `go`, not a channel send); every connection gets its own
     `go c.serve()`; `ServeMux.ServeDIAM` takes the mux lock in read mode -/
 theorem C08_gen : Gen.serveDispatchSync = true ∧ Gen.goServeSites = 4 ∧ Gen.muxServeRLockDeferred = true ∧
-    Gen.acceptSpawnsServe = true := by decide
+    Gen.acceptSpawnsServe = true ∧
+    -- what the connections of `Sys` share is the handler, the mux's read lock and the byte-buffer
+    -- pools: package diam has no package-level channel, mutex, condition or wait group, `Server`
+    -- has no such field, and `serverHandler.ServeDIAM` only hands the message to the handler -
+    -- nothing one connection's loop could wait for another connection's handler on (`C08_frame`)
+    Gen.sharedBlockingState = [] ∧ Gen.serverHandlerCalls = ["handler.ServeDIAM"] := by decide
 
 /-- non-vacuity: two connections; a handler is held on connection 0 while connection 1 receives,
     dispatches and finishes a message -/
